@@ -92,7 +92,7 @@ Definition CLI_L1 (cs : inst bigQ * Q * seq call_t) : bool := all (call_L1 cs.1.
    GT = determine_genotype of them (either answer next to a tie), GQ by the rounding rule *)
 Definition call_L2 (f : nat -> nat -> nat -> Q) (thr : Q) (cl : call_t) : bool :=
   let: (c, ind, gt, gq, p) := cl in
-  let l := [seq f c ind g | g <- iota 0%nat 3%nat] in
+  let l := [seq qround (f c ind g) | g <- iota 0%nat 3%nat] in
   (size p == 3%nat) && all (fun g => qclose cli_tol (nth 0%Q p g) (nth 0%Q l g)) (iota 0%nat 3%nat) &&
   ((gt == call_gt l thr) || gt_ok tol l thr gt) &&
   match gt, gq with
@@ -408,7 +408,7 @@ def cli_cases(ctx, n):
         reads = []
         chrom = sc.chroms[0]
         for s in samples:
-            reads += synth.simulate_reads(rng, sc, s, chrom, rng.randint(2, 5), len_range=(120, 320), name_prefix=s,
+            reads += synth.simulate_reads(rng, sc, s, chrom, rng.randint(1, 2) if trio else rng.randint(2, 5), len_range=(120, 320), name_prefix=s,
                                           qual=rng.choice([10, 20, 30]))
         synth.write_bam(sc, reads, bam)
         args = dict(phase_input_files=[bam], variant_file=vcf, reference=None, max_coverage=rng.choice([3, 4, 6]) if not trio else 6,
@@ -540,8 +540,8 @@ def pedigree_trios(entry):
 def cli_term(inst, thr, calls):
     cl = []
     for c, ind, gt, gq, p in calls:
-        g = "None" if gt is None else f"(Some {gt})"
-        q = "None" if gq is None else f"(Some ({gq})%Z)"
+        g = "(@None nat)" if gt is None else f"(Some {gt})"
+        q = "(@None Z)" if gq is None else f"(Some ({gq})%Z)"
         cl.append(f"({c}, {ind}, {g}, {q}, {G.coq_list([G.qraw(x) for x in p])})")
     return f"({G.inst_term(inst)}, {G.qraw(thr)}, {G.coq_list(cl)})"
 
